@@ -34,6 +34,7 @@ var c18Tpls = map[string]string{
 	"e.html": "{% extends base %}{% block b %}<{{ x }}>{{ parent() }}{% endblock %}",
 	"g.xml":  "<item a=\"{{ x }}\">{{ y }}</item>",
 	"h.xml":  "<i>{{ y|raw }}|{{ x|escape }}|{{ x|escape('html') }}</i>{% include inc %}",
+	"m.js":   "{% if x matches pat %}A{% else %}B{% endif %}{{ y }}{% if x matches pat %}C{% else %}D{% endif %}{% for i in l %}{{ i matches pat ? 1 : 0 }}{{ i in x ? 1 : 0 }}{% endfor %}{{ x|up }}",
 	"f.js":   "{% if x matches pat %}g('{{ y }}'){% endif %}{% for i in l %}{{ i }};{% endfor %}{{ x starts with pat ? 1 : 0 }}",
 }
 
@@ -50,7 +51,7 @@ type c18Op struct {
 
 var c18Ops = []c18Op{
 	{false, "a.html"}, {false, "b.js"}, {false, "c.txt"}, {false, "d.css"}, {false, c18Inline}, {false, "e.html"}, {true, "b.js"}, {false, "f.js"}, {true, "a.html"},
-	{false, "g.xml"}, {false, "h.xml"},
+	{false, "g.xml"}, {false, "h.xml"}, {false, "m.js"},
 }
 
 // c18Epoch makes template names and patterns unique per schedule / iteration ("a~17.html" is served like
@@ -67,9 +68,17 @@ func c18Name(name string, k int64) string {
 
 var c18Suffix = regexp.MustCompile(`~[0-9]+|\{# [0-9]+ #\}`)
 
-func c18Ctx(k int64) map[string]stick.Value {
-	return map[string]stick.Value{"x": "<'\"&;\\", "y": "</script>", "l": []stick.Value{"<", "'"},
-		"base": c18Name("a.html", k), "inc": c18Name("c.txt", k), "pat": "^<.{0," + strconv.FormatInt(k%997+1, 10) + "}"}
+// c18Ctx: the context of a call. Concurrent calls get different variants v (thread index): the value x and
+// the pattern differ, so that a call that picks up another call's operands or intermediate results (a shared
+// cache filled in two steps, a scratch buffer) returns something it does not return alone.
+func c18Ctx(k int64, v int) map[string]stick.Value {
+	pre := []string{"", "p", "q"}[v%3]
+	first := "<"
+	if pre != "" {
+		first = pre
+	}
+	return map[string]stick.Value{"x": pre + "<'\"&;\\", "y": "</script>", "l": []stick.Value{"<", "'", pre},
+		"base": c18Name("a.html", k), "inc": c18Name("c.txt", k), "pat": "^" + first + ".{0," + strconv.FormatInt(k%997+1, 10) + "}"}
 }
 
 // c18Loader: map lookup, falling back to the name as source (inline templates); a point before each load.
@@ -121,7 +130,7 @@ func c18Env(kind int, s *core.Sched) *stick.Env {
 	return env
 }
 
-func c18Do(env *stick.Env, op c18Op, w io.Writer, k int64) (res string) {
+func c18Do(env *stick.Env, op c18Op, w io.Writer, k int64, v int) (res string) {
 	defer func() {
 		if p := recover(); p != nil {
 			res = "PANIC " + panicInfo(p)
@@ -136,17 +145,17 @@ func c18Do(env *stick.Env, op c18Op, w io.Writer, k int64) (res string) {
 		}
 		return "tree: " + norm(tree.Root().String())
 	}
-	err := env.Execute(name, w, c18Ctx(k))
+	err := env.Execute(name, w, c18Ctx(k, v))
 	if err != nil {
 		return "err=" + norm(err.Error())
 	}
 	return "err=<nil>"
 }
 
-func c18Solo(kind int, op c18Op) string {
+func c18Solo(kind int, op c18Op, v int) string {
 	env := c18Env(kind, nil)
 	w := &c18Writer{}
-	r := c18Do(env, op, w, c18Epoch.Add(1))
+	r := c18Do(env, op, w, c18Epoch.Add(1), v)
 	return r + " out=" + w.buf.String()
 }
 
@@ -167,7 +176,7 @@ func c18RunSchedule(kind int, ops []c18Op, src *core.Src) c18Outcome {
 		i, op := i, op
 		bodies[i] = func() {
 			w := &c18Writer{s: s}
-			r := c18Do(env, op, w, k)
+			r := c18Do(env, op, w, k, i)
 			res[i] = r + " out=" + w.buf.String()
 		}
 	}
@@ -200,8 +209,8 @@ func c18Sched(c core.Case) core.Result {
 		}
 		o := c18RunSchedule(kind, ops, src)
 		if solo == nil { // after the first schedule, so that the first schedule runs on cold caches
-			for _, op := range ops {
-				solo = append(solo, c18Solo(kind, op))
+			for i, op := range ops {
+				solo = append(solo, c18Solo(kind, op, i))
 			}
 		}
 		schedules++
@@ -275,19 +284,21 @@ func c18Race(c core.Case) core.Result {
 				op := ops[(g+it)%len(ops)]
 				w := &c18Writer{}
 				// all goroutines use the same fresh names in the same iteration: they collide on cold cache keys
-				r := c18Do(env, op, w, base+int64(it)) + " out=" + w.buf.String()
+				r := c18Do(env, op, w, base+int64(it), g) + " out=" + w.buf.String()
 				results[g] = append(results[g], r)
 			}
 		}()
 	}
 	wg.Wait()
-	solo := make([]string, len(ops))
+	solo := map[[2]int]string{}
 	for i, op := range ops {
-		solo[i] = c18Solo(kind, op)
+		for v := 0; v < 3; v++ {
+			solo[[2]int{i, v}] = c18Solo(kind, op, v)
+		}
 	}
 	for g := range results {
 		for it, r := range results[g] {
-			if want := solo[(g+it)%len(ops)]; r != want {
+			if want := solo[[2]int{(g + it) % len(ops), g % 3}]; r != want {
 				return core.Violation("interference-free-running", fmt.Sprintf("%d goroutines on a shared environment, ops %v: goroutine %d iteration %d (%v) returned\n    %s\n  but alone it returns\n    %s", n, ops, g, it, ops[(g+it)%len(ops)], r, want))
 			}
 		}
@@ -320,13 +331,13 @@ func c18Levels(tier string) []core.Level {
 			}
 		}
 	}
-	triples := [][]int{{0, 1, 2}, {9, 10, 1}, {1, 0, 5}, {3, 1, 0}, {10, 9, 10}, {4, 1, 6}, {5, 5, 1}, {0, 7, 3}, {6, 8, 1}, {2, 4, 7}, {1, 1, 1}, {0, 1, 1}}
+	triples := [][]int{{0, 1, 2}, {9, 10, 1}, {1, 0, 5}, {3, 1, 0}, {10, 9, 10}, {4, 1, 6}, {5, 5, 1}, {0, 7, 3}, {6, 8, 1}, {2, 4, 7}, {1, 1, 1}, {0, 1, 1}, {11, 7, 11}, {0, 11, 7}}
 	nTriples := 5
 	if thorough(tier) {
 		nTriples = len(triples)
 	}
 	lv := []core.Level{
-		{Name: "twig env: all pairs of 11 operations (incl. the same one twice), all schedules with <= 1 preemption", Gen: func(emit func(core.Case)) { pairs(0, 1, emit) }},
+		{Name: "twig env: all pairs of 12 operations (incl. the same one twice), all schedules with <= 1 preemption", Gen: func(emit func(core.Case)) { pairs(0, 1, emit) }},
 		{Name: fmt.Sprintf("twig env: all pairs, all schedules with <= %d preemptions", bound), Gen: func(emit func(core.Case)) { pairs(0, bound, emit) }},
 		{Name: "core env: all pairs, all schedules with <= 1 preemption", Gen: func(emit func(core.Case)) { pairs(1, 1, emit) }},
 		{Name: fmt.Sprintf("twig env: %d three-thread scenarios, all schedules with <= 2 preemptions", nTriples), Gen: func(emit func(core.Case)) {
